@@ -85,5 +85,121 @@ func genPrograms(tier string) string {
 			emit(stmts[i], stmts[j])
 		}
 	}
+	sb.WriteString(genGotoPrograms(tier))
+	return sb.String()
+}
+
+// genGotoPrograms emits functions whose control flow is built from labels
+// and gotos only, so that arbitrary (also irreducible) CFGs, empty labelled
+// statements, labels reached by goto and by fall-through, and label orders
+// that differ from the depth-first order occur.
+//
+// Family GGF (executable, used by C01 as well): every block counts a fuel
+// variable and leaves when it runs out, so every input terminates.
+// Family GGP (C02, C14 only): no fuel; blocks may be empty.
+// The shapes are drawn by a fixed linear congruential sequence (the same on
+// every run): for n = 3..8 labelled blocks, per block an optional observable
+// call and one of the terminators {fall through, goto j, if p goto j (then
+// fall through), if p goto j else goto k, return}.
+func genGotoPrograms(tier string) string {
+	var sb strings.Builder
+	state := uint64(0x9E3779B97F4A7C15)
+	rnd := func(n int) int {
+		state = state*6364136223846793005 + 1442695040888963407
+		return int((state >> 33) % uint64(n))
+	}
+	count := 400
+	if tier == "thorough" {
+		count = 3000
+	}
+	for k := 0; k < count; k++ {
+		n := 3 + rnd(6)
+		type blk struct {
+			work     bool
+			term     int // 0 fall, 1 goto, 2 if-goto, 3 if-goto-else-goto, 4 return
+			j, k, pr int
+		}
+		var bs []blk
+		var used []bool
+	draw:
+		bs = make([]blk, n)
+		used = make([]bool, n)
+		for i := range bs {
+			b := &bs[i]
+			b.work = rnd(3) != 0
+			b.term = rnd(5)
+			b.j, b.k, b.pr = rnd(n), rnd(n), rnd(3)
+			if i == n-1 && (b.term == 0 || b.term == 2) {
+				b.term = 4 // the last block cannot fall through
+			}
+			switch b.term {
+			case 1, 2:
+				used[b.j] = true
+			case 3:
+				used[b.j], used[b.k] = true, true
+			}
+		}
+		{
+			// keep only shapes in which every block is reachable from the first
+			reach := make([]bool, n)
+			var visit func(i int)
+			visit = func(i int) {
+				if i >= n || reach[i] {
+					return
+				}
+				reach[i] = true
+				b := bs[i]
+				switch b.term {
+				case 0:
+					visit(i + 1)
+				case 1:
+					visit(b.j)
+				case 2:
+					visit(b.j)
+					visit(i + 1)
+				case 3:
+					visit(b.j)
+					visit(b.k)
+				}
+			}
+			visit(0)
+			for _, r := range reach {
+				if !r {
+					goto draw
+				}
+			}
+		}
+		for _, fuel := range []bool{true, false} {
+			name := fmt.Sprintf("GGP%d", k)
+			if fuel {
+				name = fmt.Sprintf("GGF%d", k)
+			}
+			fmt.Fprintf(&sb, "func %s(p0, p1, p2 bool) int {\n\tc := 0\n\t_ = c\n", name)
+			for i, b := range bs {
+				if used[i] {
+					fmt.Fprintf(&sb, "L%d:\n", i)
+				}
+				if fuel {
+					fmt.Fprintf(&sb, "\tc++\n\tif c > 5 {\n\t\treturn c\n\t}\n")
+				}
+				if b.work || (!used[i] && !fuel && b.term == 0) {
+					fmt.Fprintf(&sb, "\tuse(%d)\n", i)
+				} else if used[i] && !fuel && b.term == 0 {
+					sb.WriteString("\t;\n")
+				}
+				switch b.term {
+				case 1:
+					fmt.Fprintf(&sb, "\tgoto L%d\n", b.j)
+				case 2:
+					fmt.Fprintf(&sb, "\tif p%d {\n\t\tgoto L%d\n\t}\n", b.pr, b.j)
+				case 3:
+					fmt.Fprintf(&sb, "\tif p%d {\n\t\tgoto L%d\n\t}\n\tgoto L%d\n", b.pr, b.j, b.k)
+				case 4:
+					fmt.Fprintf(&sb, "\treturn %d\n", i)
+				}
+			}
+			sb.WriteString("}\n\n")
+		}
+	}
 	return sb.String()
 }
